@@ -14,7 +14,7 @@ import pickle
 from vp import core
 from vp.worker import run_segment
 
-FORMS = ["from_import", "import_as", "from_pkg_import_mod"]
+FORMS = ["from_import", "import_as", "from_pkg_import_mod", "reexport_via_root"]
 EDITS = ["leaf_const", "leaf_var", "na_const", "na_var"]
 
 
@@ -31,6 +31,10 @@ def files_for(R, depth, form, leaf_const=7, leaf_var=3, na_const=5, na_var=1):
         imp, call = "from %s import leaf_fn" % leafmod, "leaf_fn()"
     elif form == "import_as":
         imp, call = "import %s as lm" % leafmod, "lm.leaf_fn()"
+    elif form == "reexport_via_root":
+        # the root package (accepted or not) re-exports the function; the caller reaches it through the root
+        files[R + "/__init__.py"] = "# pkg\nfrom %s import leaf_fn\n" % leafmod
+        imp, call = "import %s as rootpkg" % R, "rootpkg.leaf_fn()"
     else:
         imp, call = "from %s import leaf as lfm" % ".".join(comps[:-1]), "lfm.leaf_fn()"
     files[R + "/top.py"] = (
@@ -125,7 +129,7 @@ def late_accept_job(arg):
     comps = leafmod.split(".")
     late = ".".join(comps[: max(2, len(comps) - 1)]) if len(comps) > 2 else leafmod
     ent = {"style": "eval", "module": R + ".top", "func": "main", "args_src": "()"}
-    mods = [leafmod, R + "_na", R + ".top"]
+    mods = [leafmod, R + "_na"] + ([R] if form == "reexport_via_root" else []) + [R + ".top"]
     case = {"late_accept": True, "idx": idx, "depth": depth, "form": form, "edit": edit, "late_name": late}
     with core.Scratch("vp_c14l_") as td:
         root = os.path.join(td, "code")
